@@ -41,6 +41,26 @@ func unmarshalText(j int, ver int16, b []byte) (out string) {
 	return msgs.Text(reflect.ValueOf(v).Elem(), nil)
 }
 
+// unmarshalPublic: kafka.Unmarshal (version -1) / kafka.Version(n).Unmarshal
+func unmarshalPublic(j int, ver int16, b []byte) (out string) {
+	defer func() {
+		if e := recover(); e != nil {
+			out = "panic"
+		}
+	}()
+	v := msgs.Marshaled[j].New()
+	var err error
+	if ver == -1 {
+		err = kafka.Unmarshal(b, v)
+	} else {
+		err = kafka.Version(ver).Unmarshal(b, v)
+	}
+	if err != nil {
+		return "err"
+	}
+	return msgs.Text(reflect.ValueOf(v).Elem(), nil)
+}
+
 type captureRT struct {
 	req  protocol.Message
 	resp protocol.Message
@@ -95,6 +115,21 @@ func generateMarshal(w *bufio.Writer, r *rand.Rand) {
 					}
 					fmt.Fprintf(w, "marshal %d %d %s\t%s\n", j, ver, texts[i], gen.Hex(outs[i]))
 					fmt.Fprintf(w, "unmarshal %d %d %s\t%s\n", j, ver, gen.Hex(outs[i]), unmarshalText(j, ver, outs[i]))
+					if i == 0 {
+						// the public wrappers of kafka.go: kafka.Marshal = version -1, kafka.Version(n).Marshal = version n
+						pub := func(f func() ([]byte, error)) string {
+							b, err := f()
+							if err != nil {
+								return "err"
+							}
+							return gen.Hex(b)
+						}
+						fmt.Fprintf(w, "marshal %d %d %s\t%s\n", j, ver, texts[i], pub(func() ([]byte, error) { return kafka.Version(ver).Marshal(vals[i]) }))
+						if ver == -1 {
+							fmt.Fprintf(w, "marshal %d %d %s\t%s\n", j, ver, texts[i], pub(func() ([]byte, error) { return kafka.Marshal(vals[i]) }))
+						}
+						fmt.Fprintf(w, "unmarshal %d %d %s\t%s\n", j, ver, gen.Hex(outs[i]), unmarshalPublic(j, ver, outs[i]))
+					}
 				}
 			}
 		}
